@@ -106,6 +106,20 @@ def tag_of_line(path, line, _cache={}):
         m = re.search(r"/\*@([^*]*)\*/", lines[line - 1])
         if m:
             return m.group(1).split()
+        # a clause that spans several lines is reported at its FIRST line while the tag sits behind its closing parenthesis:
+        # follow the continuation lines until the parentheses opened by __CPROVER_ensures( balance (at most 12 lines)
+        m = re.match(r"\s*__CPROVER_(ensures|requires)\s*\(", lines[line - 1])
+        if m:
+            depth = 0
+            for j in range(line - 1, min(line + 11, len(lines))):
+                txt = re.sub(r"/\*.*?\*/", "", lines[j])
+                depth += txt.count("(") - txt.count(")")
+                if j > line - 1:
+                    mm = re.search(r"/\*@([^*]*)\*/", lines[j])
+                    if mm:
+                        return mm.group(1).split()
+                if depth <= 0:
+                    break
         m = re.match(r"\s*([A-Za-z_][A-Za-z0-9_]*)\b", lines[line - 1])
         if m and m.group(1) in _macro_tags() and not lines[line - 1].lstrip().startswith("#"):
             return list(_macro_tags()[m.group(1)])
